@@ -144,6 +144,28 @@ def s1_eval(cfg, res, sig):
     return nvals
 
 
+def s1r_solve(cfg):
+    """Seam S1r: the real eko.solve (recipes, parts.evolve/match, join, archive) with scipy's quad replaced by a
+    3-point evaluation of the real integrand (real QuadKerBase, real Talbot path, real kernels)."""
+    import sys
+    import types
+
+    import eko.evolution_operator  # noqa
+
+    evop = sys.modules["eko.evolution_operator"]
+
+    def quad(f, a, b, **kw):
+        v = f(0.5) + f(0.75) + f(0.95)
+        return (v, 0.0, {}) if kw.get("full_output") else (v, 0.0)
+
+    saved = evop.integrate
+    evop.integrate = types.SimpleNamespace(quad=quad)
+    try:
+        return cards.solve_ops(cfg, tag="c04r")
+    finally:
+        evop.integrate = saved
+
+
 def evaluate(case):
     res = Result()
     if case["kind"] == "entry":
@@ -158,10 +180,10 @@ def evaluate(case):
             res.info = {"values": n}
             res.outcome = "finite" if not res.fails else "nonfinite"
         else:
-            ops = cards.solve_ops(cfg, tag="c04")
+            ops = s1r_solve(cfg) if seam == "s1r" else cards.solve_ops(cfg, tag="c04")
             bad = [ep for ep, (o, e) in ops.items() if not np.all(np.isfinite(o)) or (e is not None and not np.all(np.isfinite(e)))]
             if bad or not ops:
-                res.fail(f"S3/{sigc}/nonfinite", f"{where}: non-finite entries written for {bad}")
+                res.fail(f"{seam.upper()}/{sigc}/nonfinite", f"{where}: non-finite entries written for {bad}")
             res.outcome = "finite"
     except Exception as e:  # noqa
         if _clean_refusal(e):
@@ -260,6 +282,11 @@ def run(ctx):
             skipped += 1
             continue
         cases.append(dict(kind="s1", assign=a))
+    # S1r: the same integrand-point idea, but through the real runner (parts.evolve/match, join, archive)
+    s1r = s1 if not ctx.thorough() else [a for a in s1 if a["qcd"] <= 2 or (a["method"] in (0, 4) and a["inversion"] == 0)]
+    for a in s1r:
+        if to_cfg(a) is not None and (ctx.thorough() or a["qcd"] <= 2):
+            cases.append(dict(kind="s1r", assign=a))
     seen = set()
     for a in s3:
         key = tuple(sorted(a.items()))
@@ -280,7 +307,7 @@ def run(ctx):
     ctx.rule = (
         ("full product of the 9 runcard dimensions (55 296 assignments, those with an impossible (shape, nf) pair skipped)" if ctx.thorough()
          else "all cards within 2 deviations of 4 base cards over the 9 runcard dimensions")
-        + " at the integrand seam (every recipe, every sector label, 3 (x, basis) pairs, 3 u-points); real solves on the <=1-deviation sets; "
+        + " at the integrand seam (every recipe, every sector label, 3 (x, basis) pairs, 3 u-points) and, for a sub-product (quick: QCD order <= 2; thorough: order <= 2 fully, order 3-4 for 2 methods), through the real runner with the quadrature replaced by a 3-point evaluation (seam S1r); real solves on the <=1-deviation sets; "
         "180 entry-point towers for the silent-zero clause; non-trivial = not refused"
     )
     ctx.assumptions += [
